@@ -416,6 +416,13 @@ def part_histories(res, rng, n_tuples):
                 ckind = "dependent"
             else:
                 T, cname, ckind, lo, hi = rng.choice(ranged)
+                if chosen and rng.random() < 0.4:
+                    # another type whose controller carries the same NUMBER as the previous target's (one window object may
+                    # then serve both links, see below)
+                    same = [r for r in ranged if r[2] != "compact" and r[0] != chosen[-1][0]
+                            and MODULE_CLASSES[sp[r[0]].mtype].controllers[r[1]].number == chosen[-1][7] != 0]
+                    if same:
+                        T, cname, ckind, lo, hi = rng.choice(same)
                 cls = MODULE_CLASSES[sp[T].mtype]
                 m = p.new_module(cls)
             top = (hi - lo) if ckind == "compact" else 32768     # as in part_drive: a compact target's window is in its own units
@@ -427,6 +434,15 @@ def part_histories(res, rng, n_tuples):
         mc = p.new_module(MultiCtl, gain=rng.choice([256, 256, 1024, rng.randint(0, 1024)]), quantization=rng.choice([32768, 32768, 7, rng.randint(0, 32768)]),
                           mappings=mappings)
         mc >> mods
+        # "both targets use this window": ONE Mapping object stored in two slots whose targets are different types with the same
+        # controller number
+        for j in range(1, n_targets):
+            i = j - 1
+            if chosen[i][7] == chosen[j][7] != 0 and chosen[i][0] != chosen[j][0] and "compact" not in (chosen[i][2], chosen[j][2]) \
+                    and "dependent" not in (chosen[i][2], chosen[j][2]) and rng.random() < 0.7:
+                mc.mappings.values[j] = mc.mappings.values[i]
+                chosen[j][5], chosen[j][6] = chosen[i][5], chosen[i][6]
+                res.count("history_bundles_with_one_mapping_object_in_two_slots")
         unplugged = sorted(rng.sample(range(n_targets), rng.randint(0, max(0, n_targets - 1)))) if rng.random() < 0.7 else []
         for j in unplugged:
             p.connect(mc, ~mods[j])
@@ -703,6 +719,21 @@ def part_pure(res, rng, n_tuples):
         vmax = None if compact else span
         case = {"gain": gain, "qsteps": quant, "window": [a, b], "span": span, "compact": compact, "curve": "default" if curve is None else curve[::32]}
         cv = curve if curve is not None else [min(i * 128, 32768) for i in range(257)]
+        # the table may be held in any sequence type an application computes curves with
+        holder = rng.choice(("list", "list", "tuple", "array-H", "numpy-uint16", "numpy-int64", "numpy-float64"))
+        try:
+            if holder == "tuple":
+                cv = tuple(cv)
+            elif holder == "array-H":
+                import array
+                cv = array.array("H", cv)
+            elif holder.startswith("numpy"):
+                import numpy
+                cv = numpy.array(cv, dtype=getattr(numpy, holder.split("-")[1]))
+        except Exception:
+            holder = "list"
+        case["curve_holder"] = holder
+        res.hist("curve_holders", holder)
         prev = None
         for v in range(32769):
             try:
